@@ -73,6 +73,11 @@ CHECKS = {
          "Pick on all groups offering it (13 non-constant streams, all-zero / all-0xff prefixes of 1,3,7 point lengths): independent membership + (q-1)P+P=O, same stream => same point whatever the receiver held. Embed on the 8 groups offering it (incl. a cofactor-84 residue group): every data length 0..EmbedLen+8 x 3 patterns + nil/empty: member, Data() = data truncated to EmbedLen also after decode(encode) and Clone, deterministic. Data() on crafted members with length field in {0,1,EmbedLen-1,EmbedLen,EmbedLen+1,EmbedLen+2,200,255,(256,300,65535)}: error iff out of range, else the stored bytes. Hash-to-group on the 8 hashable groups: 6 message lengths, determinism, pairwise distinct, bit-flip distinct, 3 custom domain-separation tags; RFC 9380 vectors for edwards25519 ELL2 and BLS12-381 G1 (5) / G2 (3) on kilic, circl and gnark.",
          "Trusted: curve parameters and RFC vectors transcribed into /verif; constant streams excluded.",
          "DESIGN.md §4 C17"),
+ "C13": ("model_checking",
+         "exhaustive enumeration of (n,t,secret,H) x trustees x single-field mutations / swaps and of all subsets of decrypted shares on the real PVSS/DLEQ code",
+         "PVSS on Ed25519 and P-256, n=2..4 (thorough ..6), all t, secrets {0,1,r}, two second bases: honest shares verify singly and in batch, every subset of decrypted shares in two orders recovers secret*G iff >= t; 16 mutations of every trustee's encrypted share / key / evaluation point (value+1, another trustee's, identity, swaps, another sharing's challenge or share), every commitment coefficient, 11 mutations of every decrypted share incl. republishing under another index: rejected singly, absent from batch output, caller's slices intact, or recovery still exact. DLEQ: 13 alterations incl. sum-preserving ones (xG<->xH, VG<->VH, G<->H, +D/-D) and cross-statement use of batch proofs.",
+         "Trusted: seeded dealer randomness; the global challenge is read from the honest dealer's shares.",
+         "DESIGN.md §4 C13"),
 }
 
 NOT_YET = "check not built yet in this round (planned: see DESIGN.md §4)"
